@@ -370,7 +370,7 @@ static std::vector<int> sharpAlphabet()
         {
             case 'C': in = o.v == 0; break;
             case 'I': in = (o.i == 0 && o.v == 0) || (o.d == 0 && (o.i == 0 || o.v == 0)); break;
-            case 'A': in = o.d == 0; break;   // (the full-alphabet tree has every refresh operation)
+            // (refresh operations: in the full-alphabet tree only, which reaches the shortest manifesting history cm cm refresh)
             case 'R': in = true; break;
             case 'r': in = o.d == 0 && o.i == 0; break;
             case 'X': in = true; break;
